@@ -464,7 +464,10 @@ def _fmt_level(e):
     if pq.call_named(e, ".format") and e[2][0] == ('sym', "'{0:0.1f}%'") and len(e[2]) == 2:
         return e[2][1]
     if pq.call_named(e, "fstr") and len(e[2]) == 2 and e[2][1] == ('sym', "'%'"):
-        return e[2][0]                 # f"{level:..}%"  (the builder does not keep the format specification)
+        v = e[2][0]                    # f"{level:0.1f}%": same text as '{0:0.1f}%'.format(level)
+        if pq.call_named(v, "fmt") and len(v[2]) == 2 and v[2][1] in (('sym', "'0.1f'"), ('sym', "'.1f'")):
+            return v[2][0]
+        return None
     if isinstance(e, tuple) and e[0] == 'sym' and e[1].startswith("'"):
         return e
     return None
